@@ -173,12 +173,18 @@ def update_uid_counter(H, idx):
 
     """
     uid = next(H._edge_uid)
-    if (
-        not isinstance(idx, str)
-        and not isinstance(idx, tuple)
-        and float(idx).is_integer()
-        and uid <= idx
-    ):
+    try:
+        bump = (
+            not isinstance(idx, str)
+            and not isinstance(idx, tuple)
+            and float(idx).is_integer()
+            and uid <= idx
+        )
+    except (TypeError, ValueError, OverflowError):
+        # any other hashable (frozenset, bytes, UUID, complex, ...) cannot clash
+        # with the integer IDs of count(); an int too large for a float can.
+        bump = isinstance(idx, int) and uid <= idx
+    if bump:
         # tuple comes from merging edges and doesn't have as as_integer() method.
         start = int(idx) + 1
         # we set the start at one plus the maximum edge ID that is an integer,
